@@ -279,6 +279,8 @@ type vfStreamSrv struct {
 	sendErr error
 	err     error
 	calls   int
+	// afterFirstSend runs between the first and the second reply
+	afterFirstSend func()
 }
 
 func vfStreamHandler(srv interface{}, stream grpc.ServerStream) error {
@@ -292,10 +294,13 @@ func vfStreamHandler(srv interface{}, stream grpc.ServerStream) error {
 		}
 		s.got = append(s.got, m.raw)
 	}
-	for _, r := range s.replies {
+	for i, r := range s.replies {
 		if err := stream.SendMsg(r); err != nil {
 			s.sendErr = err
 			return err
+		}
+		if i == 0 && s.afterFirstSend != nil {
+			s.afterFirstSend()
 		}
 	}
 	return s.err
